@@ -14,7 +14,9 @@ import JP.Lemmas.EngineSpecFacts
                  (`fixBody`: no escape sequence, none of `<`, `>`, `&`, U+2028, U+2029, valid
                  UTF-8), member names of raw objects must denote the same name after escaping
                  and after re-quoting (`Impl.CstOK true`), names of parsed objects must survive
-                 `quoteBody true` / `unquote` (`Impl.QK true`);
+                 `quoteBody true` / `unquote` (`Impl.QK true`; the standard library's spelling
+                 `quoteBodyStd` — `\\b`, `\\f` for `\\u0008`, `\\u000c` — decodes to the same bytes,
+                 `JP/Lemmas/LegacyRespell.lean`);
 * `Inv`        – `WF ∧ LT`;
 * `Sim a b`    – two duplicate-free values equal up to member order;
 * `specOp`     – the RFC 6902 operation a decoded legacy operation stands for;
